@@ -292,7 +292,10 @@ def run_combo(col, combo, ks=None):
     col.payload.append((canon(combo), n))
     positions = range(0, n + 1) if ks is None else ks
     for k in positions:
-        o = execute(combo, k)
+        try:
+            o = execute(combo, k)
+        except HarnessError as e:
+            raise HarnessError('%s [C13 part A, combo %s, k=%r]' % (e, canon(combo), k))
         col.evaluated()
         col.traces += 1
         col.transitions += o['steps']
